@@ -5,6 +5,7 @@ import ast
 from ..core import (AnalysisError, dotted, unparse, calls_in, call_name,
                     walk_no_defs, parent, ancestors, ClassInfo, FuncInfo)
 from ..flow import guards_at, flatten_guards, SeqFlow, RETURN
+from .. import guardspec
 from ..ownership import Ownership, mutation_sites, chain, FRESH_CALLS
 from ..setflow import (set_typed_names, unordered_iterations,
                        class_set_attributes)
@@ -544,16 +545,112 @@ def rule_r3(prog, res, tier):
                             '%s, not the declaration-ordered _type_info' % it)
 
 
+# ------------------------------------------------------------------- R4
+def _nested_literal(v):
+    if isinstance(v, (ast.Tuple, ast.List)):
+        return any(isinstance(e, (ast.Tuple, ast.List, ast.Dict, ast.Set))
+                   for e in v.elts)
+    if isinstance(v, ast.Dict):
+        return any(isinstance(e, (ast.Tuple, ast.List, ast.Dict, ast.Set))
+                   for e in v.values)
+    return False
+
+
+def rule_r4(prog, res):
+    res.rule('R4', 'container attributes inherited by a derived class are '
+             'copied to the depth of their nesting')
+    c = prog.cls('spyne.model._base:ModelBase')
+    f = c.methods.get('_s_customize')
+    if f is None:
+        raise AnalysisError('ModelBase._s_customize', 'not found')
+    lits = {}
+    inherits = []
+    for a in walk_no_defs(f.node):
+        if not (isinstance(a, ast.Assign) and len(a.targets) == 1 and
+                isinstance(a.targets[0], ast.Attribute) and
+                unparse(a.targets[0].value) == 'Attributes'):
+            continue
+        attr = a.targets[0].attr
+        if isinstance(a.value, (ast.Tuple, ast.List, ast.Dict, ast.Set)):
+            lits[attr] = a.value
+        elif ('cls.Attributes.%s' % attr) in unparse(a.value):
+            inherits.append((attr, a))
+    n = 0
+    for attr, a in inherits:
+        n += 1
+        nested = attr in lits and _nested_literal(lits[attr])
+        v = a.value
+        how = call_name(v) if isinstance(v, ast.Call) else 'alias'
+        ok = how == 'deepcopy' or (not nested and how in (
+            'copy', 'dict', 'list', 'set', 'odict', 'tuple'))
+        where = '%s:%d' % (f.module.relpath, a.lineno)
+        res.ob('R4', where, '_s_customize: Attributes.%s = %s (%s '
+               'container per its literal default %s)' % (
+                   attr, unparse(v)[:50], 'nested' if nested else 'flat',
+                   unparse(lits[attr]) if attr in lits else '?'),
+               'ok' if ok else 'VIOLATED', nontrivial=True)
+        if not ok:
+            res.finding('R4', 'ModelBase._s_customize|%s|%s' % (attr, how),
+                        where, 'the derived class takes Attributes.%s from '
+                        'its parent through %s, but the value is a nested '
+                        'container (%s): the inner containers stay shared, '
+                        'so customising one variant (e.g. adding a column '
+                        'argument) changes the type it was derived from and '
+                        'every sibling' % (attr, how, unparse(lits[attr])
+                                           if attr in lits else '?'))
+    res.floor('R4', 'inherited container attributes in _s_customize', n, 1)
+
+
+# ------------------------------------------------------------------- R5
+def rule_r5(prog, res):
+    res.rule('R5', 'child attribute policies are pushed to the parent '
+             'whenever there is a parent')
+    m = prog.module('spyne.model.complex')
+    f = m.functions.get('_process_child_attrs')
+    if f is None:
+        raise AnalysisError('_process_child_attrs', 'not found')
+    n = 0
+    for a in walk_no_defs(f.node):
+        if isinstance(a, ast.Assign) and len(a.targets) == 1 and \
+                unparse(a.targets[0]).endswith('.__extends__') and \
+                isinstance(a.value, ast.Call) and \
+                call_name(a.value) == 'customize':
+            n += 1
+            guardspec.check(res, 'R5', f, a, 're-customisation of the parent '
+                            '(%s)' % unparse(a.value.keywords[0])[:30]
+                            if a.value.keywords else 'parent customisation',
+                            allowed=[('_ is None', False),
+                                     ('_.__extends__ is None', False)],
+                            key='_process_child_attrs|parent|%s' % (
+                                a.value.keywords[0].arg
+                                if a.value.keywords else '?'))
+    res.floor('R5', 'parent re-customisation sites', n, 2)
+
+
 def run(prog, res, tier):
     res.run_rule(rule_r1, prog, res)
     res.run_rule(rule_r2, prog, res)
     res.run_rule(rule_r3, prog, res, tier)
+    res.run_rule(rule_r4, prog, res)
+    res.run_rule(rule_r5, prog, res)
 
 
 _C = 'spyne/model/complex.py'
 _B = 'spyne/model/_base.py'
 
 MUTANTS = [
+    Mutant('column-args-shallow-copy', 'R4', 'fire', _B,
+           in_func('ModelBase._s_customize',
+                   r"deepcopy\(\s*cls\.Attributes\.sqla_column_args\)",
+                   "tuple(cls.Attributes.sqla_column_args)", regex=True),
+           'sqla_column_args'),
+    Mutant('parent-recustomized-only-for-known-keys', 'R5', 'fire', _C,
+           in_func('_process_child_attrs',
+                   r"(            retval\.__extends__ = retval\.__extends__\."
+                   r"customize\(\s*child_attrs=child_attrs\))",
+                   lambda m_: "            if len(child_attrs) > 0:\n    " +
+                   m_.group(1).replace("\n", "\n    "), regex=True),
+           'extra-guard'),
     Mutant('mandatory-mutates-source', 'R1', 'fire', _C,
            in_func('Mandatory',
                    r"    retval = cls\.customize\(\*\*kwargs\)\n\n"
